@@ -56,6 +56,8 @@ def shards(tier):
     for name, nmax in (('ZR1', 4 if q else 6), ('ZC5', 4 if q else 5), ('ZI1', 3 if q else 4)):
         for n in range(2, nmax + 1):
             out.append(('corrmtx', name, n))
+    for n in ([6, 9] if q else [6, 9, 16, 33]):
+        out.append(('pcm', n))
     return out
 
 
@@ -95,6 +97,23 @@ def run_shard(desc, R, tier):
             for ml in list(range(n)) + [None]:
                 for norm in NORMS + ['coeff']:
                     eval_point({'kind': 'xcorr', 'x': x, 'y': None, 'maxlags': ml, 'norm': norm, 'aslist': False}, R)
+    elif kind == 'pcm':
+        n = desc[1]
+        recs = A.pcm(n)
+        for nx, x in recs:
+            for ml in [0, 1, n // 2, n - 1, None]:
+                for norm in NORMS + ['coeff']:
+                    eval_point({'kind': 'auto', 'x': x, 'maxlags': ml, 'norm': norm, 'name': nx}, R)
+                    eval_point({'kind': 'xcorr', 'x': x, 'y': None, 'maxlags': ml, 'norm': norm, 'aslist': False, 'name': nx}, R)
+            for m in (1, 2, n // 2):
+                for meth in ('autocorrelation', 'prewindowed', 'postwindowed', 'covariance', 'modified'):
+                    eval_point({'kind': 'corrmtx', 'x': x, 'm': m, 'method': meth, 'name': nx}, R)
+            for ny, y in recs:
+                if ny != nx and y.dtype == x.dtype:
+                    for ml in [0, 2, None]:
+                        for norm in NORMS:
+                            eval_point({'kind': 'cross', 'x': x, 'y': y[:n - 2], 'maxlags': ml, 'norm': norm, 'name': nx + '/' + ny}, R)
+                            eval_point({'kind': 'xcorr', 'x': x, 'y': y, 'maxlags': ml, 'norm': norm, 'aslist': False, 'name': nx + '/' + ny}, R)
     elif kind == 'corrmtx':
         _, name, n = desc
         alpha, dt = _alpha(name)
@@ -107,11 +126,17 @@ def run_shard(desc, R, tier):
         raise ValueError(desc)
 
 
+def _prom(a):
+    """The mathematical value of integer samples (no wrap-around): promote to float64."""
+    a = np.asarray(a)
+    return a.astype(float) if a.dtype.kind in 'iub' else a
+
+
 def _dt(*arrs):
     if any(np.iscomplexobj(a) for a in arrs if a is not None):
         return 'complex'
     if all(np.asarray(a).dtype.kind in 'iu' for a in arrs if a is not None):
-        return 'int'
+        return 'int' if all(np.asarray(a).dtype.itemsize >= 8 for a in arrs if a is not None) else 'narrow-int'
     return 'real'
 
 
@@ -126,16 +151,16 @@ def eval_point(pt, R):
         ml = pt['maxlags']
         mlr = N - 1 if ml is None else int(ml)
         yy = x if y is None else y
-        energy = float(np.sum(np.abs(x) ** 2) + np.sum(np.abs(yy) ** 2))
+        energy = float(np.sum(np.abs(_prom(x)) ** 2) + np.sum(np.abs(_prom(yy)) ** 2))
         feats = {'norm': str(norm), 'dtype': _dt(x, y)}
         if kind == 'cross':
             feats['lens'] = 'x<y' if len(x) < len(y) else ('x>y' if len(x) > len(y) else 'x=y')
-        if norm == 'coeff' and not np.any(x != 0):
+        if norm == 'coeff' and not np.any(np.asarray(x) != 0):
             R.point(pt, indomain=False)
             R.skip('coeff_of_zero_data')
             return
         R.point(pt)
-        ref = rc.correlation(x, yy, mlr, norm)
+        ref = rc.correlation(_prom(x), _prom(yy), mlr, norm)
         R.calls()
         try:
             if y is None:
@@ -152,7 +177,7 @@ def eval_point(pt, R):
             R.check(abs(obs[0] - 1.0) <= 1e-12, 'auto', dict(feats, sub='lag0'), pt, obs[0], 1.0, 'coeff autocorrelation is not 1 at lag 0')
         if kind == 'auto' and norm == 'biased' and ml is None and obs.shape == ref.shape:
             r0 = float(np.real(obs[0]))
-            m2 = float(np.mean(np.abs(x) ** 2))
+            m2 = float(np.mean(np.abs(_prom(x)) ** 2))
             ok = abs(r0 - m2) <= 1e-9 * max(m2, 1e-300) and np.all(np.abs(obs) <= r0 * (1 + 1e-9) + 1e-300)
             T = rc.toeplitz_herm(obs)
             ev = np.linalg.eigvalsh(T) if len(obs) > 0 else np.array([0.0])
@@ -173,8 +198,8 @@ def eval_point(pt, R):
             R.skip('coeff_outside_autocorrelation_of_nonzero_data')
             return
         R.point(pt)
-        pos = rc.correlation(x, yy, mlr, norm)
-        neg = np.conj(rc.correlation(yy, x, mlr, norm))
+        pos = rc.correlation(_prom(x), _prom(yy), mlr, norm)
+        neg = np.conj(rc.correlation(_prom(yy), _prom(x), mlr, norm))
         ref = np.concatenate([neg[:0:-1], pos])
         reflags = np.arange(-mlr, mlr + 1)
         R.calls()
@@ -189,7 +214,7 @@ def eval_point(pt, R):
         except Exception as e:
             R.viol('xcorr', dict(feats, exc=type(e).__name__), pt, repr(e), ref, 'xcorr raised inside its domain')
             return
-        energy = float(np.sum(np.abs(x) ** 2) + np.sum(np.abs(yy) ** 2))
+        energy = float(np.sum(np.abs(_prom(x)) ** 2) + np.sum(np.abs(_prom(yy)) ** 2))
         atol = 1e-12 * max(energy, 1e-300) if norm != 'coeff' else 1e-12
         R.check(close(obs, ref, RTOL, atol), 'xcorr', feats, pt, obs, ref,
                 'xcorr != [conj(r_yx[k]) at -k ... r_xy[k] at +k]', outs=(obs,), err=relerr(obs, ref, atol))
@@ -201,7 +226,7 @@ def eval_point(pt, R):
         meth = pt['method']
         feats = {'method': meth, 'dtype': _dt(x)}
         R.point(pt)
-        ref = rc.datamatrix(x, m, meth)
+        ref = rc.datamatrix(_prom(x), m, meth)
         R.calls()
         try:
             obs = np.asarray(spectrum.corrmtx(x, m, meth))
@@ -212,8 +237,8 @@ def eval_point(pt, R):
                 err=relerr(obs, ref))
         if meth == 'autocorrelation' and obs.shape == ref.shape:
             N = len(x)
-            r = rc.correlation(x, x, m, 'biased')
-            G = np.conj(obs.T) @ obs
+            r = rc.correlation(_prom(x), _prom(x), m, 'biased')
+            G = np.conj(obs.T).astype(complex if np.iscomplexobj(obs) else float) @ obs.astype(complex if np.iscomplexobj(obs) else float)
             # (X^H X)[a,b] = sum_i conj(x[i-a]) x[i-b] = N r[a-b] = N T[a,b] with T[i,j] = r[i-j]
             T = rc.toeplitz_herm(r)
             R.check(close(G, N * T, RTOL, 1e-12), 'gram', feats, pt, G, N * T,
